@@ -164,6 +164,15 @@ def _havoc(interp, frame, spec, modified_names, tag):
             interp.st.assume(n >= 0)
             ys.length = n
             continue
+        from .api import HavocBy
+        if isinstance(ty, HavocBy):
+            # an object changed in place by the body, with its own way of becoming arbitrary
+            parts = name.split('.')
+            obj = _lookup_name(frame, parts[0])
+            for a in parts[1:]:
+                obj = interp.getattr(obj, a)
+            ty.fn(interp, obj)
+            continue
         if name.startswith('ghost:'):
             # ghost state (interp.st.ghost) changed by models/contracts called in the body
             interp.st.ghost[name[6:]] = ty.make(interp, '%s@%s' % (name, tag))
@@ -194,6 +203,100 @@ def _havoc(interp, frame, spec, modified_names, tag):
                 interp.setattr(obj, attr, ty.make(interp, '%s@%s' % (name, tag)))
             else:
                 frame.locals[name] = ty.make(interp, '%s@%s' % (name, tag))
+
+
+class LoopGuard:
+    """Dynamic check of the heap part of a loop frame.  While the arbitrary iteration of a loop with an
+    invariant is executed, every store to an attribute of an object that existed at the loop head, and every
+    mutation of such a list / dict, must be covered by the loop's `modifies` (which is what was havocked at
+    the loop head): otherwise the facts assumed after the loop about that object would be those from before
+    it.  Stores are reported by Interp.note_heap_write (attribute stores, native container mutations, contract
+    frames, environment models).  Objects created during the iteration are free."""
+
+    def __init__(self, interp, frame, spec, label):
+        self.label = label
+        self.pre = set()
+        self.keep = []
+        self.allowed = set()
+        roots = list(frame.locals.values())
+        for d in frame.enclosing:
+            roots.extend(d.values())
+        roots.extend(interp.reg.ghost_env.values())
+        for r in roots:
+            self._reach(r, 0)
+        from .api import MListOf, HavocBy
+        for name, ty in spec.modifies.items():
+            if name.startswith('ghost:') or name == 'yielded' or ty == 'local':
+                continue
+            path = name[1:] if name.startswith('@') else name
+            parts = path.split('.')
+            try:
+                obj = _lookup_name(frame, parts[0])
+                for a in parts[1:-1]:
+                    obj = interp.getattr(obj, a)
+            except Exception:
+                continue
+            if len(parts) > 1:
+                self.allowed.add((id(obj), parts[-1]))
+                self.keep.append(obj)
+                try:
+                    cur = interp.getattr(obj, parts[-1])
+                except Exception:
+                    cur = None
+            else:
+                cur = obj
+            if name.startswith('@') or isinstance(ty, (MListOf, HavocBy)) or isinstance(cur, (list, dict)):
+                self.allowed.add((id(cur), '*'))
+                self.keep.append(cur)
+
+    def _reach(self, v, depth):
+        if depth > 10 or len(self.pre) > 20000:
+            return
+        if isinstance(v, (int, str, bool, float, bytes, type(None), type)) or isinstance(v, Sym) and not isinstance(v, SList):
+            return
+        import types as _types
+        if isinstance(v, (_types.FunctionType, _types.ModuleType, _types.BuiltinFunctionType, _types.MethodType)):
+            return
+        i = id(v)
+        if i in self.pre:
+            return
+        self.pre.add(i)
+        self.keep.append(v)
+        if isinstance(v, (list, tuple, set, frozenset)):
+            for x in v:
+                self._reach(x, depth + 1)
+        elif isinstance(v, dict):
+            for x in v.values():
+                self._reach(x, depth + 1)
+        else:
+            d = getattr(v, '__dict__', None)
+            if isinstance(d, dict):
+                for k, x in d.items():
+                    if not (isinstance(k, str) and k.startswith('_pv_')):
+                        self._reach(x, depth + 1)
+                pa = d.get('_pv_attrs')
+                if isinstance(pa, dict):
+                    for x in pa.values():
+                        self._reach(x, depth + 1)
+
+    def check(self, interp, obj, attr):
+        i = id(obj)
+        if i not in self.pre:
+            return
+        if (i, '*') in self.allowed or (attr is not None and (i, attr) in self.allowed):
+            return
+        raise Unsupported('%s: the body writes %s of a pre-existing %s object, which `modifies` does not declare'
+                          % (self.label, ('attribute %r' % attr) if attr else 'the contents',
+                             type(obj).__name__))
+
+
+def _lookup_name(frame, name):
+    if name in frame.locals:
+        return frame.locals[name]
+    for d in reversed(frame.enclosing):
+        if name in d:
+            return d[name]
+    raise KeyError(name)
 
 
 def _check_frame(spec, node):
@@ -235,7 +338,11 @@ def exec_while(interp, node, frame):
         dec0 = None
         if spec.decreases is not None:
             dec0 = _call_pred(interp, spec.decreases, _env_of(interp, frame, {}))
-        r = interp.exec_block(node.body, frame)
+        interp.loop_guards.append(LoopGuard(interp, frame, spec, label))
+        try:
+            r = interp.exec_block(node.body, frame)
+        finally:
+            interp.loop_guards.pop()
         if r is not None and r[0] not in ('continue',):
             if r[0] == 'break':
                 return None
@@ -350,10 +457,12 @@ def _for_symbolic(interp, node, frame, src):
             it_cell.pos = wrap(i + 1)
         interp.assign(node.target, x, frame)
         interp.loop_index_stack.append(i)
+        interp.loop_guards.append(LoopGuard(interp, frame, spec, label))
         try:
             r = interp.exec_block(node.body, frame)
         finally:
             interp.loop_index_stack.pop()
+            interp.loop_guards.pop()
         if r is not None and r[0] != 'continue':
             if r[0] == 'break':
                 return None
